@@ -91,6 +91,9 @@ def run(tier):
             verdict.disagree(dict(base, what="stack_not_empty", outcome=e["kind"] or "ok"), info)
         elif a["probe"]["kind"] != e["probe"]:
             verdict.disagree(dict(base, what="not_reusable", outcome=e["kind"] or "ok", probe=a["probe"]["kind"] or "ok"), info)
+        elif (a["probe2"]["kind"], a["probe2"]["total"]) != (e["probe2"]["kind"], e["probe2"]["total"]):
+            verdict.disagree(dict(base, what="long_probe_after", outcome=e["kind"] or "ok", sem=e["probe2"]["kind"] or "ok", real=a["probe2"]["kind"] or "ok"),
+                             dict(info, probe2_expected=e["probe2"], probe2_observed={k: a["probe2"].get(k) for k in ("kind", "total", "msg")}))
         elif (b["main"]["total"], b["main"]["kind"]) != (m["total"], m["kind"]):
             verdict.disagree(dict(base, what="not_repeatable"), dict(info, second=b["main"]))
     for need in ("ok", "ticks", "cancelled", "depth"):
